@@ -342,6 +342,16 @@ func c7Faults(thorough bool) []c7Fault {
 		s.Qe.Levels = []world.QeLevel{{Isvsvn: lo, Status: "UpToDate"}}
 	})
 	add("isvprodid:65536-in-document", func(rng *rand.Rand, s *world.Spec) { s.Qe.IsvProdID = 65536 })
+	// 0 is a product id like any other, not "unset"
+	add("isvprodid:identity-0-report-nonzero", func(rng *rand.Rand, s *world.Spec) {
+		s.Qe.IsvProdID = 0
+		s.Quote.QeReport.IsvProdId = uint32([]int{1, 2, 255, 65535}[rng.IntN(4)])
+	})
+	add("isvprodid:identity-nonzero-report-0", func(rng *rand.Rand, s *world.Spec) {
+		s.Qe.IsvProdID = 1 + rng.IntN(60000)
+		s.Quote.QeReport.IsvProdId = 0
+	})
+	add("isvprodid:both-0", func(rng *rand.Rand, s *world.Spec) { s.Qe.IsvProdID, s.Quote.QeReport.IsvProdId = 0, 0 })
 	// the message carries ISVSVN / ISVPRODID in 32 bits, the signed report in 16: high bits added after signing leave the QE
 	// report signature valid for a truncating serialiser; the level lookup must still see the SIGNED value (here: OutOfDate)
 	add("isvsvn:high-bits-after-signing", func(rng *rand.Rand, s *world.Spec) {
